@@ -228,6 +228,7 @@ static void ep_curve_set(const fp_t a, const fp_t b, const ep_t g, const bn_t r,
 
 void ep_curve_init(void) {
 	ctx_t *ctx = core_get();
+	ctx->ep_id = 0;
 #ifdef EP_PRECO
 	for (int i = 0; i < RLC_EP_TABLE; i++) {
 		ctx->ep_ptr[i] = &(ctx->ep_pre[i]);
